@@ -14,7 +14,7 @@ import aaverisk_lib as L
 from aaverisk_lib import Case, Exact, close, TOL
 
 PROPERTY = "C11"
-LEAN_MODULES = ["Proofs.C11", "Proofs.C11.Max", "Proofs.C11.Invariant", "Proofs.C11.Refine", "Proofs.C11.RefineWithdraw", "Proofs.C11.RefineInvariant"]
+LEAN_MODULES = ["Proofs.C11", "Proofs.C11.Max", "Proofs.C11.Invariant", "Proofs.C11.Refine", "Proofs.C11.RefineWithdraw", "Proofs.C11.RefineInvariant", "Proofs.C12.Admitted", "Proofs.C11.AllOps", "Proofs.C11.RefineAllOps"]
 DRIVERS = ["driver_aaverisk"]
 RULE = ("portfolios over the uppercase symbols of the four risk-parameter CSVs (1-3 collateral supplies, 0-2 non-collateral supplies, 0-3 debts, "
         "indices 1..3, prices log-uniform over 11 decades (1e-6 .. 1e5)) in health classes no-debt / healthy / HF = 1 / HF < 1; one call per case: borrow, withdraw, "
@@ -35,7 +35,7 @@ MARGIN = F(1, 10 ** 9)
 MINTV = F(1e-18 - 1e-27)
 MSG = [("invalid amount", "invalidAmount"), ("borrow is not enabled", "borrowDisabled"), ("collateral balance is zero", "noCollateral"),
        ("ltv validation failed", "ltvZero"), ("collateral cannot cover new borrow", "notCovered"),
-       ("not enough available user balance", "overBalance")]
+       ("not enough available user balance", "overBalance"), ("Can not supplied as collateral", "cannotCollateral")]
 
 
 # ------------------------------------------------------------------------------------------------------------ generator
@@ -283,8 +283,15 @@ def o_change(out, obs, tok, flag):
             out.append(("change_collateral.state", "state after change_collateral is not 'only the flag changed'"))
         if (not flag) and sup[0][2] and E1.total_debt > 0 and not hf_ok(E1.hf):
             out.append(("change_collateral.hf-after", f"health factor {float(E1.hf)} < 1 after disabling {tok} as collateral"))
+        if flag and (not sup[0][2]) and not rows[tok]["cc"]:
+            out.append(("change_collateral.accepted-not-collateralisable",
+                        f"change_collateral({tok}, True) accepted although usageAsCollateralEnabled is False (supply(..., collateral=True) refuses it)"))
     else:
-        if flag or not sup[0][2] or EA.total_debt == 0 or EA.hf >= 1 + MARGIN:
+        admitted_on = flag and (not sup[0][2]) and not rows[tok]["cc"]       # switching on a token the risk table does not admit: refused, as in supply()
+        if admitted_on:
+            if obs["exc"] != "AssertionError":
+                out.append(("change_collateral.not-collateralisable-wrong-exception", f"change_collateral({tok}, True) raised {obs['exc']}"))
+        elif flag or not sup[0][2] or EA.total_debt == 0 or EA.hf >= 1 + MARGIN:
             out.append(("change_collateral.rejected-with-margin", f"change_collateral({tok}, {flag}) rejected ({obs['cause']}), HF afterwards would be {EA.hf and float(EA.hf)}"))
     if accepted and (not flag) and sup[0][2] and EA.total_debt > 0 and EA.hf < 1 - MARGIN:
         out.append(("change_collateral.beyond-accepted", f"disabling {tok} accepted although HF afterwards is {float(EA.hf)}"))
@@ -342,6 +349,15 @@ def run_case(ctx: Ctx, rng, stream, reqs, forced=None):
             role = "unsupplied" if not s else ("coll" if s[0][2] else "noncoll")
             flag = rng.random() < 0.35
             cls = "on" if flag else "off"
+            names_all = L.usable_tokens(case.rp_path)
+            off_toks = [n for n in names_all if not rp.loc[n].usageAsCollateralEnabled and n not in sup_names]
+            if off_toks and rng.random() < 0.3:
+                # a supply of a token the risk table does not admit as collateral (made with collateral=False), which the user tries to switch ON
+                z = rng.choice(off_toks)
+                if z not in case.toks:
+                    case.toks[z] = {"li": "1.25", "bi": "1.5", "p": str(L.rnd_dec(rng, -2, 3, 3))}
+                case.supplies.insert(rng.randint(0, len(case.supplies)), [z, str(L.rnd_dec(rng, -2, 6, 5)), False])
+                tok, flag, role, cls = z, True, "noncoll-not-admitted", "on"
             spec = {"op": "change", "tok": tok, "flag": flag}
     else:
         case, spec, health, role, cls = forced
